@@ -299,8 +299,25 @@ func (enc *jsonEncoder) AppendString(val string) {
 func (enc *jsonEncoder) AppendTimeLayout(time time.Time, layout string) {
 	enc.addElementSeparator()
 	enc.buf.AppendByte('"')
-	enc.buf.AppendTime(time, layout)
+	if jsonSafeLayout(layout) {
+		enc.buf.AppendTime(time, layout)
+	} else {
+		// The literal text of the layout needs JSON escaping.
+		enc.safeAddString(time.Format(layout))
+	}
 	enc.buf.AppendByte('"')
+}
+
+// jsonSafeLayout reports whether time formatted with the layout can be copied
+// into a JSON string as is: the layout has no quote, backslash, control or
+// non-ASCII byte (everything else a layout produces is plain ASCII).
+func jsonSafeLayout(layout string) bool {
+	for i := 0; i < len(layout); i++ {
+		if c := layout[i]; c < 0x20 || c >= utf8.RuneSelf || c == '"' || c == '\\' {
+			return false
+		}
+	}
+	return true
 }
 
 func (enc *jsonEncoder) AppendTime(val time.Time) {
